@@ -181,7 +181,7 @@ def cbytes(b):
     return czl(list(b))
 
 
-def run_cases(prop_id, name, imports, fn_expr, cases, shard=400, timeout=900, preamble=''):
+def run_cases(prop_id, name, imports, fn_expr, cases, shard=400, timeout=900, preamble='', abstain=None):
     """Evaluate the model on cases inside Coq with vm_compute and diff against expected.
 
     cases: list of (input_term, expected_listZ_term) as Coq source text; fn_expr is a Coq
@@ -202,7 +202,10 @@ def run_cases(prop_id, name, imports, fn_expr, cases, shard=400, timeout=900, pr
         src += 'Fixpoint leqb (a b : list Z) : bool := match a, b with [], [] => true | x :: a, y :: b => Z.eqb x y && leqb a b | _, _ => false end.\n'
         src += f'Definition f := {fn_expr}.\n'
         src += 'Definition cases := [\n' + ';\n'.join(f'({i + si}, {inp}, {exp})' for i, (inp, exp) in enumerate(chunk)) + '].\n'
-        src += ('Definition bad := map (fun c => fst (fst c)) (filter (fun c => negb (leqb (f (snd (fst c))) (snd c))) cases).\n'
+        # `abstain`: a result with which the model declares the input outside its domain (e.g. [2; 99] = Err EXN_Unmodelled: a text codec of
+        # the standard library that is not modelled); such a case is no disagreement - and no agreement either: it is simply not compared
+        ab = f' && negb (leqb (f (snd (fst c))) {abstain})' if abstain else ''
+        src += (f'Definition bad := map (fun c => fst (fst c)) (filter (fun c => negb (leqb (f (snd (fst c))) (snd c)){ab}) cases).\n'
                 'Definition out := Eval vm_compute in bad.\n'
                 'Goal True. let v := eval unfold out in out in idtac "@@BAD" v. exact I. Qed.\n')
         with open(os.path.join(d, fname), 'w') as f:
